@@ -197,7 +197,7 @@ TFlush ==
     /\ UNCHANGED sess
 
 TSkip ==
-    /\ IsEvent({"keys", "clock", "mark", "skip", "tamper", "sid", "sidedit", "tickkey", "pmtu"})
+    /\ IsEvent({"keys", "clock", "mark", "skip", "tamper", "sid", "sidedit", "tickkey", "pmtu", "pad"})
     /\ UNCHANGED sess
 
 TraceInit == l = 1 /\ sess = [x \in {} |-> 0]
